@@ -211,6 +211,33 @@ def rule_p(ctx):
                '' if no_yield else 'yielding inside the GeneratorExit handler raises RuntimeError on close()')
     ok = cover is not None and any(cover is x for x in A.walk_stmts(L.with_.body))
     rep.ob('P1', 'parallel_utils.lazy_parallel_map::handler-inside-the-executor-context', ok, L.with_, '')
+    # P3: terminate() can only cancel what is in the queue: no future may live outside it while the generator is
+    # suspended, i.e. every submit(...) result goes straight into q.put(...)
+    subs = [n for n in A.walk_stmts(L.with_.body) if isinstance(n, ast.Call) and A.is_name(n.func, 'submit')]
+    rep.floor('submit call sites', len(subs), 1)
+    for sc in subs:
+        par = A.parent(sc)
+        direct = isinstance(par, ast.Call) and isinstance(par.func, ast.Attribute) and par.func.attr == 'put' \
+            and L.is_q(par.func.value) and par.args and par.args[0] is sc
+        held = None
+        if not direct and isinstance(par, ast.Assign) and isinstance(par.targets[0], ast.Name):
+            nm = par.targets[0].id
+            # is there a yield between the assignment and the put of that name?
+            g = L.cfg
+            src_nodes = [nd for nd in g.stmt_nodes() if nd.ast is par]
+            put_nodes = {nd.id for nd in g.stmt_nodes() if nd.kind == 'stmt' and any(
+                isinstance(x, ast.Call) and isinstance(x.func, ast.Attribute) and x.func.attr == 'put' and L.is_q(x.func.value)
+                and x.args and A.is_name(x.args[0], nm) for x in ast.walk(nd.ast))}
+            for s0 in src_nodes:
+                p = g.path_avoiding(s0.id, lambda nd: nd.kind == 'stmt' and A.contains_yield(nd.ast),
+                                    lambda nd: nd.id in put_nodes, edge_ok=normal)
+                if p is not None:
+                    held = p
+        ok = direct or (held is None and not direct and isinstance(par, ast.Assign))
+        rep.ob('P3', 'parallel_utils.lazy_parallel_map::no-future-outside-the-queue-across-a-yield', ok, sc,
+               '' if ok else 'a submitted future is kept in a local while the generator is suspended at a yield: when the '
+               'consumer stops there, terminate() cancels only the futures in the queue and this computation is still executed',
+               path=[repr(x) for x in held if x.ast is not None] if held else None)
     # P2
     for label, stmts, node in L.branches:
         ad = L.adapters(stmts)
